@@ -514,6 +514,8 @@ class Call2Mixin:
         return VBool(h(self, v, name))
     if isinstance(v, (VSeq, VMList, VList, VTuple)):
       return VBool(name in ('__getitem__', '__len__', '__iter__'))
+    if isinstance(v, (VInt, VBool, VReal, VNoneT, VStr)):
+      return VBool(False)      # pointwise view: a generic array element is a scalar
     raise Unsupported(f'hasattr({type(v).__name__}, {name})')
 
   def sf_super(self, node, env):
